@@ -304,4 +304,35 @@ Proof.
   split; auto. split; intro Hy; eapply Rep_ids_lt in Hy; eauto; lia.
 Qed.
 
+(* on well-formed parents _cross never raises and never gets stuck: it returns two trees *)
+Theorem cross_total : forall st tf tm maxf maxm uf um ds2,
+  WFt tab st tf -> WFt tab st tm ->
+  exists fo mo st', cross st (tid tf) (tid tm) maxf maxm (uf :: um :: ds2) = Ok (fo, mo, st', ds2).
+Proof.
+  intros st tf tm maxf maxm uf um ds2 HWf HWm. unfold cross.
+  destruct (deepcopy_fresh tab st tf HWf) as (st1 & Hd1 & Hext1 & (Htcf & HWcf & Hrcf)). rewrite Hd1.
+  assert (P1 : 1 <= scale 2 maxf uf) by (unfold scale; lia).
+  assert (P2 : 1 <= scale 2 maxm um) by (unfold scale; lia).
+  destruct (find_node_total tab st1 _ (scale 2 maxf uf) HWcf P1) as ([sub_f ff] & Ef).
+  rewrite Htcf in Ef. rewrite Ef.
+  assert (HWm1 : WFt tab st1 tm) by (destruct HWm; split; auto; eapply Rep_ext; eauto).
+  destruct (deepcopy_fresh tab st1 tm HWm1) as (st2 & Hd2 & Hext2 & (Htcm & HWcm & Hrcm)). rewrite Hd2.
+  destruct (find_node_total tab st2 _ (scale 2 maxm um) HWcm P2) as ([sub_m fm] & Em).
+  rewrite Htcm in Em. rewrite Em.
+  destruct sub_f as [sf|]; [|eauto]. destruct sub_m as [sm|]; [|eauto].
+  rewrite <- Htcf in Ef. rewrite <- Htcm in Em.
+  destruct (find_node_slot tab st1 _ _ sf ff HWcf Ef) as (Bf & Hsf).
+  destruct (find_node_slot tab st2 _ _ sm fm HWcm Em) as (Bm & Hsm).
+  destruct HWcf as (HRcf & HNcf). destruct HWcm as (HRcm & HNcm).
+  assert (HRcf2 : Rep tab st2 None true (rename (copy_ren st tf) tf)) by (eapply Rep_ext; eauto).
+  destruct (sub_at_rep tab _ _ _ _ _ _ _ HRcf2 HNcf Hsf) as (csf & Gsf & Csf & _).
+  destruct (sub_at_rep tab _ _ _ _ _ _ _ HRcm HNcm Hsm) as (csm & Gsm & Csm & _).
+  destruct (sub_at_facts _ _ _ _ HNcf Hsf) as (Fin & _).
+  destruct (sub_at_facts _ _ _ _ HNcm Hsm) as (Min & Mincl & _).
+  rewrite (cross_links_exchange st2 sf sm ff fm csf csm (tid Bf) (tid Bm)); eauto.
+  - intro X. subst sm. apply Hrcf in Fin. apply Hrcm in Min. lia.
+  - intro X. assert (In (tid Bm) (ids (rename (copy_ren st1 tm) tm))) by (apply Mincl; apply tid_in_ids).
+    rewrite X in H. apply Hrcf in Fin. apply Hrcm in H. lia.
+Qed.
+
 End CrossSpec.
